@@ -20,6 +20,16 @@ THEOREMS (coq/theories/C06/Property.v, closed under the global context):
 PARTIAL, what is missing: `in_scope` excludes Graph(...) with arguments; GSort's cycle rejection, rename_values and the
 other convenience functions are outside the model (oracle-only stream; GSort atomicity belongs to C12).
 
+MULTI-GRAPH STREAM (oracle-only, added after two seeded changes escaped): gen_nested_sort builds a top graph with 2-8
+If-like nodes whose bodies (one possibly holding a further nested body) are acyclic but randomly permuted, exactly one
+scope containing a use-def cycle, and calls Graph.sort() on the top graph or a nested graph; gen_multi_rename calls
+convenience.rename_values over the initializers of 2-4 graphs with the invalid pair (collision with an untouched
+initializer / "" / duplicate target) at every position of a LATER graph; gen_multi_rau calls replace_all_uses_with over
+outputs of two graphs with a foreign replacement in the later pair (known finding).  Caught with concrete replays:
+seeded/C06-m1 (per-graph cycle check inside the re-linking loop of Graph.sort) and seeded/C06-m2 (rename_values popping
+each graph's initializers right after validating that graph).  Not modelled in Coq: sort atomicity is C12_cycle_atomic,
+rename_values all-or-nothing is C15_rename_all_or_nothing (other engineers' models).
+
 READING.  "every observable property of every reachable IR object" = the accessors of C01's observe_at list for every
 object the history ever created (a superset of the reachable ones), plus object counts.  Hidden state (ref counters,
 name-authority sets) is part of the model-side theorem only; a rejected call that corrupts only hidden state is still
